@@ -19,7 +19,7 @@ REPO = os.environ.get("VERIF_REPO", "/repo")
 LEAN_DIR = os.path.join(VERIF, "lean")
 DRIVER = os.path.join(LEAN_DIR, ".lake", "build", "bin", "sudsdriver")
 TABLES = os.path.join(LEAN_DIR, "SudsModel", "Gen", "Tables.lean")
-EVIDENCE_DIR = os.path.join(VERIF, "evidence")
+EVIDENCE_DIR = os.environ.get("VERIF_EVIDENCE_DIR") or os.path.join(VERIF, "evidence")
 REPLAY_DIR = os.path.join(EVIDENCE_DIR, "replays")
 ALLOWED_AXIOMS = {"propext", "Classical.choice", "Quot.sound"}
 FORBIDDEN = re.compile(r"\b(sorry|admit|native_decide|bv_decide|implemented_by)\b|^\s*axiom\s|\bunsafe\s|maxHeartbeats\s+0\b")
@@ -34,6 +34,8 @@ def use_repo():
             f = getattr(sys.modules[name], "__file__", "") or ""
             if not f.startswith(REPO):
                 del sys.modules[name]
+    import logging
+    logging.disable(logging.CRITICAL)
     import suds  # noqa
     import suds.client  # noqa  (loads suds.metrics, suds.sax.parser, ... as a client would)
     if not os.path.abspath(suds.__file__).startswith(os.path.abspath(REPO)):
